@@ -892,3 +892,79 @@ def r91(ctx: Ctx) -> RuleReport:
         else:
             rep.ok(key, fi.loc())
     return rep
+
+
+# ---------------------------------------------------------------------------------------------
+@rule('R93', 'Model.dereify accepts a table entry only when both of its roles match the two relations, orients the result accordingly, and raises ModelError otherwise')
+def r93(ctx: Ctx) -> RuleReport:
+    rep = RuleReport('R93', r93.title, floor=3)
+    fi = ctx.repo.func(M, 'Model.dereify')
+    if len(fi.positional) < 4:
+        rep.undecided(f'{fi.fq}: (instance, source relation, target relation)', fi.loc(), str(fi.positional))
+        return rep
+    _, ip, sp, tp_ = fi.positional[:4]
+    cfg = CFG(fi.node)
+    loops = [n for n in walk_local(fi.node) if isinstance(n, ast.For) and isinstance(n.target, ast.Tuple) and len(n.target.elts) == 3 and 'dereifications' in norm(n.iter)]
+    if len(loops) != 1:
+        rep.undecided(f'{fi.fq}: one loop over the (role, source role, target role) entries of the concept', fi.loc(), f'{len(loops)} loops')
+        return rep
+    loop = loops[0]
+    e_role, e_src, e_tgt = [norm(x) for x in loop.target.elts]
+
+    def slot(e):
+        """which relation's role / target an expression denotes: ('role', 's'|'t') / ('tgt', 's'|'t') / ('entry', name)"""
+        x = expand(ctx, fi, e, loop)
+        while isinstance(x, ast.Call) and norm(x.func) in ('cast', 'typing.cast') and len(x.args) == 2:
+            x = x.args[1]
+        s = norm(x)
+        for p_, tag in ((sp, 's'), (tp_, 't')):
+            if s == f'{p_}[1]':
+                return ('role', tag)
+            if s == f'{p_}[2]':
+                return ('tgt', tag)
+        if s in (e_role, e_src, e_tgt):
+            return ('entry', {e_role: 'role', e_src: 'src', e_tgt: 'tgt'}[s])
+        return None
+    rets = [n for n in ast.walk(loop) if isinstance(n, ast.Return) and isinstance(n.value, ast.Tuple) and len(n.value.elts) == 3]
+    if not rets:
+        rep.undecided(f'{fi.fq}: the dereified triple is returned from inside the loop', fi.loc(loop))
+    for r in rets:
+        fx = facts_ex(ctx, fi, r)
+        eqs = set()
+        for fsrc, pol in fx:
+            if not pol:
+                continue
+            try:
+                c = ast.parse(fsrc, mode='eval').body
+            except SyntaxError:
+                continue
+            if isinstance(c, ast.Compare) and len(c.ops) == 1 and isinstance(c.ops[0], ast.Eq):
+                a, b = slot(c.left), slot(c.comparators[0])
+                if a and b:
+                    pair = tuple(sorted([a, b]))
+                    eqs.add(pair)
+        direct = {(('entry', 'src'), ('role', 's')), (('entry', 'tgt'), ('role', 't'))}
+        swapped = {(('entry', 'src'), ('role', 't')), (('entry', 'tgt'), ('role', 's'))}
+        key = f'{fi.fq}: `{norm(r)[:60]}` is returned only for an entry whose two roles both match'
+        orient = 'direct' if direct <= eqs else ('swapped' if swapped <= eqs else None)
+        if orient is None:
+            part = sorted(eqs & (direct | swapped))
+            rep.violation(key, fi.loc(r), f'the entry is accepted when only {len(part)} of its two roles is known to match ({[f"{a[1]}=={b[1]}" for a, b in part] or "none"}): a node whose other relation has '
+                          f'any other role is collapsed into an edge with the wrong role / the wrong end, and reifying the result does not give the graph back')
+            continue
+        s0, s1, s2 = slot(r.value.elts[0]), slot(r.value.elts[1]), slot(r.value.elts[2])
+        want = (('tgt', 's'), ('entry', 'role'), ('tgt', 't')) if orient == 'direct' else (('tgt', 't'), ('entry', 'role'), ('tgt', 's'))
+        if (s0, s1, s2) == want:
+            rep.ok(key, fi.loc(r), orient)
+        elif None in (s0, s1, s2):
+            rep.undecided(key, fi.loc(r), norm(r.value))
+        else:
+            rep.violation(key, fi.loc(r), f'the matching is {orient}, so the triple must be (target of the {"source" if orient == "direct" else "target"} relation, role of the entry, target of the other one); '
+                          f'it is {norm(r.value)[:70]}')
+    # nothing matched -> ModelError, on every path that leaves the loop by exhaustion
+    head = cfg.node_of(loop)
+    raises = {nd.id for nd in cfg.nodes if nd.kind == 'stmt' and isinstance(nd.ast, ast.Raise)}
+    path = cfg.path_avoiding([(head, 'F')], {cfg.exit}, lambda nd: nd.id in raises)
+    rep.add(f'{fi.fq}: when no entry matches, ModelError is raised', fi.loc(loop), 'violation' if path else 'ok',
+            'after the loop the function can return normally (None): dereify_edges then uses None as a triple' if path else '')
+    return rep
